@@ -1,1 +1,1610 @@
-fn main() { eprintln!("engine not built yet"); std::process::exit(2); }
+//! Engine `cliperm` (property C20): the type registry crux_cli derives from a rustdoc
+//! description must not depend on fact order, item numbering or crate load order; it must be
+//! closed, number enum variants 0..n-1 in declaration order, and agree with serde-reflection
+//! for the capability protocol types.
+//!
+//! Technique: complete enumeration of finite, explicitly listed perturbation families over
+//! every bundled rustdoc description, each one executed through the real `codegen::run`
+//! pipeline (cfg-gated entry point `crux_cli::codegen::verif::run`), with the oracle evaluated on
+//! every run. The families are NOT "all orders"; see `assumptions` in the evidence.
+
+mod reference;
+mod remap;
+
+use std::cell::RefCell;
+use std::collections::{BTreeMap, BTreeSet};
+use std::sync::atomic::{AtomicU64, Ordering};
+use std::sync::Arc;
+use std::time::Instant;
+
+use crux_cli::codegen::verif::{self, Fact, Perturbation};
+use mc_kit::{catch, fnv64, machinery_error, par_map, Deadline, PanicInfo, Reporter, Samples, Tier, Violation};
+use rustdoc_types::{Crate, Id, Item, ItemEnum, StructKind, Type};
+use serde::{Deserialize, Serialize};
+use serde_json::{json, Value};
+
+const EXAMPLES: [&str; 7] = [
+    "bridge_echo",
+    "cat_facts",
+    "counter",
+    "hello_world",
+    "simple_counter",
+    "notes",
+    "tap_to_pay",
+];
+const LIBS: [&str; 5] = ["crux_core", "crux_http", "crux_kv", "crux_platform", "crux_time"];
+
+/// Capability protocol types shipped in this repository (property text: "the capability
+/// protocol types shipped in this repository").
+const PROTOCOL_TYPES: [&str; 19] = [
+    "HttpRequest",
+    "HttpResponse",
+    "HttpResult",
+    "HttpError",
+    "HttpHeader",
+    "KeyValueOperation",
+    "KeyValueResponse",
+    "KeyValueResult",
+    "Value",
+    "KeyValueError",
+    "TimeRequest",
+    "TimeResponse",
+    "Instant",
+    "Duration",
+    "TimerId",
+    "RenderOperation",
+    "PlatformRequest",
+    "PlatformResponse",
+    "Request",
+];
+
+type Node = (String, u32);
+
+// -------------------------------------------------------------------------------------------
+// fixtures
+
+struct Fixtures {
+    crates: BTreeMap<String, Arc<Crate>>,
+    /// largest id occurring anywhere in the description (measured with the id visitor)
+    max_id: BTreeMap<String, u32>,
+    /// number of `Id` occurrences the typed rewrite touches per description
+    id_occurrences: BTreeMap<String, u64>,
+    all_names: Vec<String>,
+}
+
+fn fixture_dir() -> String {
+    format!("{}/crux_cli/src/codegen/fixtures", mc_kit::repo_root())
+}
+
+fn load_fixtures() -> Fixtures {
+    let dir = fixture_dir();
+    let mut paths = vec![];
+    for ex in EXAMPLES {
+        paths.push((ex.to_string(), format!("{dir}/{ex}/rustdoc.json")));
+    }
+    for l in LIBS {
+        paths.push((l.to_string(), format!("{dir}/{l}.json")));
+    }
+    let loaded = par_map(&paths, |_, (name, path)| {
+        let bytes = std::fs::read(path)
+            .unwrap_or_else(|e| machinery_error(&format!("cannot read fixture {path}: {e}")));
+        let c: Crate = serde_json::from_slice(&bytes)
+            .unwrap_or_else(|e| machinery_error(&format!("cannot parse fixture {path}: {e}")));
+        // measure ids with the same typed visitor that performs the rewrites, and check that
+        // the identity rewrite reproduces the description exactly
+        let max = std::cell::Cell::new(0u32);
+        let n = std::cell::Cell::new(0u64);
+        let same: Crate = remap::remap_ids(&c, &|id| {
+            max.set(max.get().max(id));
+            n.set(n.get() + 1);
+            id
+        });
+        if same != c {
+            machinery_error(&format!("identity id rewrite changed description {name}"));
+        }
+        // an involution applied twice must give the description back
+        let m = max.get();
+        let rev: Crate = remap::remap_ids(&c, &|id| m - id);
+        if rev == c {
+            machinery_error(&format!("reversal did not change description {name}"));
+        }
+        let back: Crate = remap::remap_ids(&rev, &|id| m - id);
+        if back != c {
+            machinery_error(&format!("double reversal does not restore description {name}"));
+        }
+        (name.clone(), Arc::new(c), max.get(), n.get())
+    });
+    let mut fx = Fixtures {
+        crates: BTreeMap::new(),
+        max_id: BTreeMap::new(),
+        id_occurrences: BTreeMap::new(),
+        all_names: vec![],
+    };
+    for (name, c, max, n) in loaded {
+        fx.all_names.push(name.clone());
+        fx.max_id.insert(name.clone(), max);
+        fx.id_occurrences.insert(name.clone(), n);
+        fx.crates.insert(name, c);
+    }
+    fx.all_names.sort();
+    fx
+}
+
+// -------------------------------------------------------------------------------------------
+// perturbations
+
+#[derive(Serialize, Deserialize, Clone, Debug, PartialEq, Eq, PartialOrd, Ord)]
+#[serde(rename_all = "snake_case")]
+enum Order {
+    /// not owned: whatever the hash maps / the datalog engine produce
+    Natural,
+    /// ascending by (original) id
+    Asc,
+    Desc,
+    First { krate: String, id: u32 },
+    Last { krate: String, id: u32 },
+}
+
+#[derive(Serialize, Deserialize, Clone, Debug, PartialEq, Eq, PartialOrd, Ord)]
+#[serde(rename_all = "snake_case")]
+enum Renumber {
+    Identity,
+    /// id -> max - id in the listed descriptions
+    Reverse { crates: Vec<String> },
+    /// id -> id + (u32::MAX - max) in the listed descriptions
+    Offset { crates: Vec<String> },
+    /// swap two ids of one description
+    Transpose { krate: String, a: u32, b: u32 },
+}
+
+#[derive(Serialize, Deserialize, Clone, Debug, PartialEq, Eq, PartialOrd, Ord)]
+struct Case {
+    description: String,
+    family: String,
+    /// order of the item/summary/external-crate fact vectors of every processed crate
+    facts: Order,
+    /// order of the edge vector handed to the formatter
+    edges: Order,
+    renumber: Renumber,
+    /// crates are loaded by this priority (first = loaded first once it is known); crates not
+    /// listed come after, alphabetically. Ignored when `facts` is `Natural`.
+    load_priority: Vec<String>,
+    /// a change of the description's MEANING (not a renumbering): two variants of one enum
+    /// trade places in the enum's declared `variants` list; the registry has to follow
+    #[serde(default, skip_serializing_if = "Option::is_none")]
+    declared_swap: Option<DeclaredSwap>,
+}
+
+#[derive(Serialize, Deserialize, Clone, Debug, PartialEq, Eq, PartialOrd, Ord)]
+struct DeclaredSwap {
+    krate: String,
+    enum_id: u32,
+    /// positions in the declared `variants` list
+    a: usize,
+    b: usize,
+}
+
+fn swap_declared(c: &mut Crate, s: &DeclaredSwap) {
+    if let Some(Item { inner: ItemEnum::Enum(e), .. }) = c.index.get_mut(&Id(s.enum_id)) {
+        if s.a < e.variants.len() && s.b < e.variants.len() {
+            e.variants.swap(s.a, s.b);
+        }
+    }
+}
+
+#[derive(Clone, Copy, Debug)]
+enum Numbering {
+    Identity,
+    Reverse(u32),
+    Offset(u32),
+    Swap(u32, u32),
+}
+
+impl Numbering {
+    fn fwd(self, id: u32) -> u32 {
+        match self {
+            Numbering::Identity => id,
+            Numbering::Reverse(max) => max - id,
+            Numbering::Offset(off) => id + off,
+            Numbering::Swap(a, b) => {
+                if id == a {
+                    b
+                } else if id == b {
+                    a
+                } else {
+                    id
+                }
+            }
+        }
+    }
+    fn inv(self, id: u32) -> u32 {
+        match self {
+            Numbering::Offset(off) => id - off,
+            other => other.fwd(id), // identity, reversal and swap are involutions
+        }
+    }
+}
+
+fn numbering_of(fx: &Fixtures, r: &Renumber) -> BTreeMap<String, Numbering> {
+    let mut m = BTreeMap::new();
+    match r {
+        Renumber::Identity => {}
+        Renumber::Reverse { crates } => {
+            for c in crates {
+                m.insert(c.clone(), Numbering::Reverse(fx.max_id[c]));
+            }
+        }
+        Renumber::Offset { crates } => {
+            for c in crates {
+                m.insert(c.clone(), Numbering::Offset(u32::MAX - fx.max_id[c]));
+            }
+        }
+        Renumber::Transpose { krate, a, b } => {
+            m.insert(krate.clone(), Numbering::Swap(*a, *b));
+        }
+    }
+    m
+}
+
+// -------------------------------------------------------------------------------------------
+// one execution of the real pipeline
+
+#[derive(Clone, Debug)]
+struct RunOut {
+    registry: Value,
+    registry_text: String,
+    registry_hash: u64,
+    loaded: Vec<String>,
+    /// edges in ORIGINAL ids
+    edges: Vec<(Node, Node)>,
+    fingerprint: u64,
+    ms: f64,
+    /// part of `ms` spent cloning / renumbering descriptions in the loader
+    load_ms: f64,
+}
+
+#[derive(Clone, Debug)]
+enum RunResult {
+    Ok(Box<RunOut>),
+    Err(String),
+    Panic(PanicInfo),
+}
+
+struct Defer<F: Fn()>(F);
+impl<F: Fn()> Drop for Defer<F> {
+    fn drop(&mut self) {
+        (self.0)()
+    }
+}
+
+fn execute(fx: &Fixtures, case: &Case) -> RunResult {
+    let t0 = Instant::now();
+    let numbering = Arc::new(numbering_of(fx, &case.renumber));
+    let names = Arc::new(fx.all_names.clone());
+    let crate_index = {
+        let names = names.clone();
+        move |n: &str| -> u128 { names.iter().position(|x| x == n).unwrap_or(names.len()) as u128 }
+    };
+
+    let perturbation = if case.facts == Order::Natural {
+        Perturbation::default()
+    } else {
+        let nb = numbering.clone();
+        let facts = case.facts.clone();
+        let fact_key = move |kind: Fact, krate: &str, id: u32| -> u128 {
+            if kind == Fact::ExtCrate {
+                // crate ids are not item ids: never renumbered, never the target of first/last
+                return match facts {
+                    Order::Desc => u128::from(u32::MAX - id),
+                    _ => u128::from(id),
+                };
+            }
+            let orig = nb.get(krate).copied().unwrap_or(Numbering::Identity).inv(id);
+            match &facts {
+                Order::Natural => unreachable!(),
+                Order::Asc => 1 + u128::from(orig),
+                Order::Desc => 1 + u128::from(u32::MAX - orig),
+                Order::First { krate: k, id: i } => {
+                    if k == krate && *i == orig {
+                        0
+                    } else {
+                        1 + u128::from(orig)
+                    }
+                }
+                Order::Last { krate: k, id: i } => {
+                    if k == krate && *i == orig {
+                        u128::MAX
+                    } else {
+                        1 + u128::from(orig)
+                    }
+                }
+            }
+        };
+        let edge_key: Option<Box<dyn Fn((&str, u32), (&str, u32)) -> u128>> = match &case.edges {
+            Order::Natural => None,
+            order => {
+                let nb = numbering.clone();
+                let order = order.clone();
+                let ci = crate_index.clone();
+                Some(Box::new(move |(ac, aid): (&str, u32), (bc, bid): (&str, u32)| {
+                    let a = nb.get(ac).copied().unwrap_or(Numbering::Identity).inv(aid);
+                    let b = nb.get(bc).copied().unwrap_or(Numbering::Identity).inv(bid);
+                    let packed: u128 = (ci(ac) << 72)
+                        | (u128::from(a) << 40)
+                        | (ci(bc) << 32)
+                        | u128::from(b);
+                    let touches = |k: &str, i: u32| (k == ac && i == a) || (k == bc && i == b);
+                    let top: u128 = 1 << 100;
+                    match &order {
+                        Order::Natural => unreachable!(),
+                        Order::Asc => packed,
+                        Order::Desc => top - packed,
+                        Order::First { krate, id } => {
+                            if touches(krate, *id) {
+                                packed
+                            } else {
+                                top + packed
+                            }
+                        }
+                        Order::Last { krate, id } => {
+                            if touches(krate, *id) {
+                                top + packed
+                            } else {
+                                packed
+                            }
+                        }
+                    }
+                }))
+            }
+        };
+        let prio = case.load_priority.clone();
+        let ci = crate_index.clone();
+        let crate_rank = move |name: &str| -> u128 {
+            match prio.iter().position(|p| p == name) {
+                Some(i) => i as u128,
+                None => 1000 + ci(name),
+            }
+        };
+        Perturbation {
+            fact_key: Some(Box::new(fact_key)),
+            edge_key,
+            crate_rank: Some(Box::new(crate_rank)),
+        }
+    };
+
+    let loaded: RefCell<Vec<String>> = RefCell::new(vec![]);
+    let load_ms = std::cell::Cell::new(0f64);
+    let load = |name: &str| -> anyhow::Result<Crate> {
+        let t = Instant::now();
+        let _g = Defer(|| load_ms.set(load_ms.get() + t.elapsed().as_secs_f64() * 1e3));
+        loaded.borrow_mut().push(name.to_string());
+        let c = fx
+            .crates
+            .get(name)
+            .ok_or_else(|| anyhow::anyhow!("no bundled description for crate {name}"))?;
+        let mut out = match numbering.get(name).copied() {
+            None | Some(Numbering::Identity) => (**c).clone(),
+            Some(n) => remap::remap_ids(&**c, &|id| n.fwd(id)),
+        };
+        if let Some(s) = case.declared_swap.as_ref().filter(|s| s.krate == name) {
+            // (only combined with the identity numbering)
+            swap_declared(&mut out, s);
+        }
+        Ok(out)
+    };
+
+    let result = catch(|| verif::run(&case.description, load, perturbation));
+    let ms = t0.elapsed().as_secs_f64() * 1e3;
+    match result {
+        Err(p) => RunResult::Panic(p),
+        Ok(Err(e)) => RunResult::Err(format!("{e:#}")),
+        Ok(Ok(out)) => {
+            let registry = serde_json::to_value(&out.registry).expect("registry serializes");
+            let registry_text = serde_json::to_string(&out.registry).expect("registry serializes");
+            let back = |(k, id): (String, u32)| -> Node {
+                let orig = numbering.get(&k).copied().unwrap_or(Numbering::Identity).inv(id);
+                (k, orig)
+            };
+            RunResult::Ok(Box::new(RunOut {
+                registry_hash: fnv64(registry_text.as_bytes()),
+                registry,
+                registry_text,
+                loaded: loaded.into_inner(),
+                edges: out.edges.into_iter().map(|(a, b)| (back(a), back(b))).collect(),
+                fingerprint: out.order_fingerprint,
+                ms,
+                load_ms: load_ms.get(),
+            }))
+        }
+    }
+}
+
+// -------------------------------------------------------------------------------------------
+// relevant items and case generation
+
+#[derive(Clone, Copy, Debug, PartialEq, Eq, PartialOrd, Ord)]
+enum Kind {
+    Struct,
+    Enum,
+    Variant,
+    Field,
+    Impl,
+    AssocType,
+    Other,
+}
+
+fn kind_of(item: &Item) -> Kind {
+    match &item.inner {
+        ItemEnum::Struct(_) => Kind::Struct,
+        ItemEnum::Enum(_) => Kind::Enum,
+        ItemEnum::Variant(_) => Kind::Variant,
+        ItemEnum::StructField(_) => Kind::Field,
+        ItemEnum::Impl(_) => Kind::Impl,
+        ItemEnum::AssocType { .. } => Kind::AssocType,
+        _ => Kind::Other,
+    }
+}
+
+/// Items that reach the output (nodes of the edge relation) plus the impls of the marker
+/// traits the filter looks at, their associated types, their self types and (for `App`) the
+/// fields of the self type.
+fn relevant_items(fx: &Fixtures, base: &RunOut) -> BTreeSet<Node> {
+    let mut out: BTreeSet<Node> = BTreeSet::new();
+    for (a, b) in &base.edges {
+        out.insert(a.clone());
+        out.insert(b.clone());
+    }
+    for krate in &base.loaded {
+        let c = &fx.crates[krate];
+        for item in c.index.values() {
+            let ItemEnum::Impl(imp) = &item.inner else { continue };
+            let Some(tr) = &imp.trait_ else { continue };
+            if !["App", "Effect", "Capability", "Operation"].contains(&tr.path.as_str()) {
+                continue;
+            }
+            out.insert((krate.clone(), item.id.0));
+            for it in &imp.items {
+                if let Some(Item { inner: ItemEnum::AssocType { .. }, .. }) = c.index.get(it) {
+                    out.insert((krate.clone(), it.0));
+                }
+            }
+            if let Type::ResolvedPath(p) = &imp.for_ {
+                if let Some(target) = c.index.get(&p.id) {
+                    out.insert((krate.clone(), p.id.0));
+                    if tr.path == "App" {
+                        if let ItemEnum::Struct(s) = &target.inner {
+                            let fields: Vec<Id> = match &s.kind {
+                                StructKind::Plain { fields, .. } => fields.clone(),
+                                StructKind::Tuple(fs) => fs.iter().flatten().cloned().collect(),
+                                StructKind::Unit => vec![],
+                            };
+                            for f in fields {
+                                if c.index.contains_key(&f) {
+                                    out.insert((krate.clone(), f.0));
+                                }
+                            }
+                        }
+                    }
+                }
+            }
+        }
+    }
+    out
+}
+
+fn permutations(items: &[String]) -> Vec<Vec<String>> {
+    if items.len() <= 1 {
+        return vec![items.to_vec()];
+    }
+    let mut out = vec![];
+    for i in 0..items.len() {
+        let mut rest = items.to_vec();
+        let x = rest.remove(i);
+        for mut p in permutations(&rest) {
+            p.insert(0, x.clone());
+            out.push(p);
+        }
+    }
+    out
+}
+
+struct Plan {
+    cases: Vec<Case>,
+    /// family -> number of cases
+    sizes: BTreeMap<String, usize>,
+    k_per_crate: BTreeMap<String, usize>,
+    edge_nodes: usize,
+    deps: Vec<String>,
+    scope: Vec<String>,
+}
+
+fn baseline_case(description: &str, deps: &[String]) -> Case {
+    Case {
+        description: description.to_string(),
+        family: "baseline".into(),
+        facts: Order::Asc,
+        edges: Order::Natural,
+        renumber: Renumber::Identity,
+        load_priority: deps.to_vec(),
+        declared_swap: None,
+    }
+}
+
+/// `scope`: the crates whose items get per-item members (item first/last, edges of item
+/// first/last, transpositions) under this description. Thorough: every loaded crate. Quick: the
+/// root crate plus those dependent crates for which this description is the designated one (the
+/// description with the fewest loaded crates that loads it), so that every relevant item of every
+/// bundled description is moved at least under one description.
+fn plan(fx: &Fixtures, description: &str, base: &RunOut, tier: Tier, scope: &BTreeSet<String>) -> Plan {
+    let mut deps: Vec<String> = base.loaded[1..].to_vec();
+    deps.sort();
+    let relevant = relevant_items(fx, base);
+    let mut edge_nodes: BTreeSet<Node> = BTreeSet::new();
+    let mut edge_sources: BTreeSet<Node> = BTreeSet::new();
+    for (a, b) in &base.edges {
+        edge_nodes.insert(a.clone());
+        edge_nodes.insert(b.clone());
+        edge_sources.insert(a.clone());
+    }
+    let mk = |family: &str, facts: Order, edges: Order, renumber: Renumber, prio: &[String]| Case {
+        description: description.to_string(),
+        family: family.to_string(),
+        facts,
+        edges,
+        renumber,
+        load_priority: prio.to_vec(),
+        declared_swap: None,
+    };
+    let mut cases = vec![];
+
+    // family 1: fact order
+    cases.push(mk("fact-order", Order::Desc, Order::Natural, Renumber::Identity, &deps));
+    for (k, id) in relevant.iter().filter(|(k, _)| scope.contains(k)) {
+        for first in [true, false] {
+            let o = if first {
+                Order::First { krate: k.clone(), id: *id }
+            } else {
+                Order::Last { krate: k.clone(), id: *id }
+            };
+            cases.push(mk("fact-order", o, Order::Natural, Renumber::Identity, &deps));
+        }
+    }
+    // family 1b: order of the edges handed to the formatter. Quick: per-item members for the
+    // containers (edge sources) only; thorough: for every item occurring in an edge.
+    cases.push(mk("edge-order", Order::Asc, Order::Asc, Renumber::Identity, &deps));
+    cases.push(mk("edge-order", Order::Asc, Order::Desc, Renumber::Identity, &deps));
+    let per_item_edges = tier.pick(&edge_sources, &edge_nodes);
+    for (k, id) in per_item_edges.iter().filter(|(k, _)| scope.contains(k)) {
+        for first in [true, false] {
+            let o = if first {
+                Order::First { krate: k.clone(), id: *id }
+            } else {
+                Order::Last { krate: k.clone(), id: *id }
+            };
+            cases.push(mk("edge-order", Order::Asc, o, Renumber::Identity, &deps));
+        }
+    }
+    // family 2: renumbering (fact order pinned to the original item order)
+    let all: Vec<String> = base.loaded.clone();
+    let mut renum = |r: Renumber| cases.push(mk("renumber", Order::Asc, Order::Natural, r, &deps));
+    if all.len() > 1 {
+        renum(Renumber::Reverse { crates: all.clone() });
+        renum(Renumber::Offset { crates: all.clone() });
+    }
+    for c in &all {
+        renum(Renumber::Reverse { crates: vec![c.clone()] });
+        renum(Renumber::Offset { crates: vec![c.clone()] });
+    }
+    let mut k_per_crate = BTreeMap::new();
+    for c in &all {
+        let ids: Vec<u32> = relevant.iter().filter(|(k, _)| k == c).map(|(_, i)| *i).collect();
+        k_per_crate.insert(c.clone(), ids.len());
+        if !scope.contains(c) {
+            continue;
+        }
+        let mut pairs: BTreeSet<(u32, u32)> = BTreeSet::new();
+        match tier {
+            Tier::Thorough => {
+                for i in 0..ids.len() {
+                    for j in i + 1..ids.len() {
+                        pairs.insert((ids[i], ids[j]));
+                    }
+                }
+            }
+            Tier::Quick => {
+                // neighbours in id order among the relevant items of one kind (variant with the
+                // next variant, field with the next field, ...)
+                let mut by_kind: BTreeMap<Kind, Vec<u32>> = BTreeMap::new();
+                for id in &ids {
+                    if let Some(item) = fx.crates[c].index.get(&Id(*id)) {
+                        by_kind.entry(kind_of(item)).or_default().push(*id);
+                    }
+                }
+                for v in by_kind.values() {
+                    for w in v.windows(2) {
+                        pairs.insert((w[0], w[1]));
+                    }
+                }
+            }
+        }
+        for (a, b) in pairs {
+            renum(Renumber::Transpose { krate: c.clone(), a, b });
+        }
+    }
+    // family 3: load order
+    for p in permutations(&deps) {
+        if p != deps {
+            cases.push(mk("load-order", Order::Asc, Order::Natural, Renumber::Identity, &p));
+        }
+        if tier == Tier::Thorough {
+            cases.push(mk("load-order", Order::Desc, Order::Natural, Renumber::Identity, &p));
+        }
+    }
+    // family 4: declaration order is what counts - swap two neighbouring live variants in the
+    // declared list of every enum that reaches the formatter; the registry must follow
+    for (k, id) in edge_sources.iter().filter(|(k, _)| scope.contains(k)) {
+        let c = &fx.crates[k];
+        let Some(Item { inner: ItemEnum::Enum(e), .. }) = c.index.get(&Id(*id)) else { continue };
+        let live: Vec<usize> = e
+            .variants
+            .iter()
+            .enumerate()
+            .filter(|(_, v)| c.index.get(v).is_some_and(|i| !reference::serde_attrs(i).skip))
+            .map(|(p, _)| p)
+            .collect();
+        for w in live.windows(2) {
+            let mut case = mk("declared-swap", Order::Asc, Order::Natural, Renumber::Identity, &deps);
+            case.declared_swap = Some(DeclaredSwap { krate: k.clone(), enum_id: *id, a: w[0], b: w[1] });
+            cases.push(case);
+        }
+    }
+    // unowned runs: real hash order, real work-list order (a sample, not an enumeration)
+    for _ in 0..tier.pick(2, 10) {
+        cases.push(mk("natural", Order::Natural, Order::Natural, Renumber::Identity, &[]));
+    }
+
+    let mut sizes = BTreeMap::new();
+    for c in &cases {
+        *sizes.entry(c.family.clone()).or_insert(0) += 1;
+    }
+    Plan {
+        cases,
+        sizes,
+        k_per_crate,
+        edge_nodes: edge_nodes.len(),
+        deps,
+        scope: scope.iter().cloned().collect(),
+    }
+}
+
+// -------------------------------------------------------------------------------------------
+// oracles
+
+/// Classifies how two registries differ (the alphabetically first differing entry decides).
+fn diff_class(base: &Value, other: &Value) -> (String, String) {
+    let (b, o) = (base.as_object().unwrap(), other.as_object().unwrap());
+    let names: BTreeSet<&String> = b.keys().chain(o.keys()).collect();
+    for n in names {
+        match (b.get(n), o.get(n)) {
+            (Some(x), Some(y)) if x == y => continue,
+            (Some(_), None) => return ("entry-missing".into(), n.clone()),
+            (None, Some(_)) => return ("entry-extra".into(), n.clone()),
+            (Some(x), Some(y)) => {
+                let class = match (reference::registry_variants(x), reference::registry_variants(y)) {
+                    (Some(vx), Some(vy)) => {
+                        let nx: BTreeSet<&String> = vx.iter().map(|v| &v.1).collect();
+                        let ny: BTreeSet<&String> = vy.iter().map(|v| &v.1).collect();
+                        if nx != ny {
+                            "enum-variant-set"
+                        } else if vx.iter().map(|v| (v.0, &v.1)).ne(vy.iter().map(|v| (v.0, &v.1))) {
+                            "enum-variant-index"
+                        } else {
+                            "enum-variant-format"
+                        }
+                    }
+                    _ => {
+                        let fields = |v: &Value| -> Option<Vec<String>> {
+                            Some(
+                                v.get("STRUCT")?
+                                    .as_array()?
+                                    .iter()
+                                    .filter_map(|n| n.as_object().and_then(|o| o.keys().next().cloned()))
+                                    .collect(),
+                            )
+                        };
+                        match (fields(x), fields(y)) {
+                            (Some(fx_), Some(fy)) => {
+                                let sx: BTreeSet<&String> = fx_.iter().collect();
+                                let sy: BTreeSet<&String> = fy.iter().collect();
+                                if sx != sy {
+                                    "struct-field-set"
+                                } else if fx_ != fy {
+                                    "struct-field-order"
+                                } else {
+                                    "struct-field-format"
+                                }
+                            }
+                            _ => "container-format",
+                        }
+                    }
+                };
+                return (class.into(), n.clone());
+            }
+            (None, None) => unreachable!(),
+        }
+    }
+    ("none".into(), String::new())
+}
+
+fn closedness(registry: &Value) -> Vec<(String, String)> {
+    // (container, missing referenced type)
+    let mut out = vec![];
+    let Some(m) = registry.as_object() else { return out };
+    for (name, entry) in m {
+        let mut refs = vec![];
+        reference::referenced_type_names(entry, &mut refs);
+        for r in refs {
+            if !m.contains_key(&r) {
+                out.push((name.clone(), r));
+            }
+        }
+    }
+    out
+}
+
+struct VariantFinding {
+    class: &'static str,
+    enum_name: String,
+    detail: String,
+}
+
+/// For every enum that reaches the formatter: the registry entry must list exactly the declared,
+/// non-skipped variants under keys 0..n-1 in declaration order.
+fn variant_indices(
+    fx: &Fixtures,
+    edges: &[(Node, Node)],
+    registry: &Value,
+) -> (Vec<VariantFinding>, u64, u64, u64) {
+    let mut findings = vec![];
+    let (mut enums, mut variants, mut not_derivable) = (0u64, 0u64, 0u64);
+    // enum items among the edge sources, grouped by the name they are registered under
+    let mut by_name: BTreeMap<String, BTreeSet<Node>> = BTreeMap::new();
+    for (src, _) in edges {
+        let Some(item) = fx.crates.get(&src.0).and_then(|c| c.index.get(&Id(src.1))) else {
+            continue;
+        };
+        if matches!(item.inner, ItemEnum::Enum(_)) {
+            if let Some(n) = reference::container_name(item) {
+                by_name.entry(n).or_default().insert(src.clone());
+            }
+        }
+    }
+    for (name, nodes) in by_name {
+        let Some(entry) = registry.get(&name) else {
+            findings.push(VariantFinding {
+                class: "enum-without-entry",
+                enum_name: name.clone(),
+                detail: format!("enum {name} reaches the formatter but has no registry entry"),
+            });
+            continue;
+        };
+        let Some(actual) = reference::registry_variants(entry) else {
+            // a struct of the same name won the entry; reported by the invariance oracle if it
+            // is order dependent, not a variant-index matter
+            continue;
+        };
+        enums += 1;
+        variants += actual.len() as u64;
+        // contiguity does not need the declaration
+        let keys: Vec<u64> = actual.iter().map(|v| v.0).collect();
+        if keys != (0..actual.len() as u64).collect::<Vec<_>>() {
+            findings.push(VariantFinding {
+                class: "not-contiguous",
+                enum_name: name.clone(),
+                detail: format!("variant keys of {name} are {keys:?}"),
+            });
+            continue;
+        }
+        let mut expectations = vec![];
+        for n in &nodes {
+            let c = &fx.crates[&n.0];
+            if let Some(e) = reference::expected_variants(c, &c.index[&Id(n.1)]) {
+                expectations.push(e);
+            }
+        }
+        if expectations.is_empty() {
+            not_derivable += 1;
+            continue;
+        }
+        let matches = |e: &Vec<reference::ExpectedVariant>| {
+            e.len() == actual.len()
+                && e.iter().zip(&actual).all(|(e, a)| e.name == a.1 && e.shape == a.2)
+        };
+        if !expectations.iter().any(matches) {
+            let e = &expectations[0];
+            let en: Vec<&String> = e.iter().map(|v| &v.name).collect();
+            let an: Vec<&String> = actual.iter().map(|v| &v.1).collect();
+            let class = if en.len() != an.len()
+                || en.iter().collect::<BTreeSet<_>>() != an.iter().collect::<BTreeSet<_>>()
+            {
+                "variant-set"
+            } else if en != an {
+                "declaration-order"
+            } else {
+                "variant-shape"
+            };
+            findings.push(VariantFinding {
+                class,
+                enum_name: name.clone(),
+                detail: format!(
+                    "{name}: declared (without serde(skip)) {:?}, registry {:?}",
+                    e.iter().map(|v| (&v.name, &v.shape)).collect::<Vec<_>>(),
+                    actual.iter().map(|v| (v.0, &v.1, &v.2)).collect::<Vec<_>>()
+                ),
+            });
+        }
+    }
+    (findings, enums, variants, not_derivable)
+}
+
+#[derive(Serialize, Deserialize)]
+enum Effect {
+    Render(crux_core::render::RenderOperation),
+}
+
+/// serde-reflection registry of the protocol types, traced from the sources compiled into this
+/// binary (the current working tree of the repository).
+fn traced_protocol_registry() -> Value {
+    use crux_core::capability::Operation;
+    use crux_core::typegen::{State, TypeGen};
+    let mut g = TypeGen::new();
+    let r = (|| -> crux_core::typegen::Result {
+        crux_http::protocol::HttpRequest::register_types(&mut g)?;
+        crux_kv::KeyValueOperation::register_types(&mut g)?;
+        crux_time::TimeRequest::register_types(&mut g)?;
+        crux_core::render::RenderOperation::register_types(&mut g)?;
+        crux_platform::PlatformRequest::register_types(&mut g)?;
+        g.register_type::<Effect>()?;
+        g.register_type::<crux_core::bridge::Request<Effect>>()?;
+        Ok(())
+    })();
+    if let Err(e) = r {
+        machinery_error(&format!("tracing the protocol types failed: {e}"));
+    }
+    let State::Registering(tracer, _) = std::mem::replace(&mut g.state, TypeGen::new().state) else {
+        machinery_error("TypeGen not in registering state");
+    };
+    let reg = tracer
+        .registry()
+        .unwrap_or_else(|e| machinery_error(&format!("serde-reflection registry: {e}")));
+    serde_json::to_value(&reg).expect("serde-reflection registry serializes")
+}
+
+/// Struct/enum items among the edge sources registered under `name`.
+fn definitions_of<'a>(fx: &'a Fixtures, edges: &[(Node, Node)], name: &str) -> Vec<(&'a Crate, &'a Item, Node)> {
+    let mut seen = BTreeSet::new();
+    let mut out = vec![];
+    for (src, _) in edges {
+        if !seen.insert(src.clone()) {
+            continue;
+        }
+        let Some(c) = fx.crates.get(&src.0) else { continue };
+        let Some(item) = c.index.get(&Id(src.1)) else { continue };
+        if matches!(item.inner, ItemEnum::Struct(_) | ItemEnum::Enum(_))
+            && reference::container_name(item).as_deref() == Some(name)
+        {
+            out.push((&**c, item, src.clone()));
+        }
+    }
+    out
+}
+
+// -------------------------------------------------------------------------------------------
+// driver
+
+fn describe_order(o: &Order) -> String {
+    match o {
+        Order::Natural => "as produced".into(),
+        Order::Asc => "ascending id".into(),
+        Order::Desc => "descending id".into(),
+        Order::First { krate, id } => format!("item {krate}#{id} first"),
+        Order::Last { krate, id } => format!("item {krate}#{id} last"),
+    }
+}
+
+fn describe_case(fx: &Fixtures, c: &Case) -> String {
+    let item_name = |k: &str, id: u32| -> String {
+        fx.crates
+            .get(k)
+            .and_then(|c| c.index.get(&Id(id)))
+            .map(|i| format!("{:?} {}", kind_of(i), i.name.clone().unwrap_or_default()))
+            .unwrap_or_default()
+    };
+    let mut s = format!(
+        "{} / {}: facts {}, edges {}, load priority {:?}",
+        c.description,
+        c.family,
+        describe_order(&c.facts),
+        describe_order(&c.edges),
+        c.load_priority
+    );
+    for o in [&c.facts, &c.edges] {
+        if let Order::First { krate, id } | Order::Last { krate, id } = o {
+            s += &format!(" [{krate}#{id} = {}]", item_name(krate, *id));
+        }
+    }
+    if let Some(sw) = &c.declared_swap {
+        s += &format!(
+            ", declared variants at positions {} and {} of enum {}#{} ({}) swapped",
+            sw.a,
+            sw.b,
+            sw.krate,
+            sw.enum_id,
+            item_name(&sw.krate, sw.enum_id)
+        );
+    }
+    match &c.renumber {
+        Renumber::Identity => {}
+        Renumber::Reverse { crates } => s += &format!(", ids reversed (max-id) in {crates:?}"),
+        Renumber::Offset { crates } => s += &format!(", ids shifted to the top of u32 in {crates:?}"),
+        Renumber::Transpose { krate, a, b } => {
+            s += &format!(
+                ", ids {a} and {b} of {krate} swapped [{} <-> {}]",
+                item_name(krate, *a),
+                item_name(krate, *b)
+            )
+        }
+    }
+    s
+}
+
+fn replay(fx: &Fixtures, path: &str) -> i32 {
+    let text = std::fs::read_to_string(path)
+        .unwrap_or_else(|e| machinery_error(&format!("cannot read replay {path}: {e}")));
+    let v: Value = serde_json::from_str(&text)
+        .unwrap_or_else(|e| machinery_error(&format!("replay {path} is not JSON: {e}")));
+    let case: Case = serde_json::from_value(v["case"]["case"].clone())
+        .unwrap_or_else(|e| machinery_error(&format!("replay {path} has no case: {e}")));
+    println!("replay of {}", v["key"]);
+    println!("step 1: unperturbed run of description {} (facts ascending id, default load priority)", case.description);
+    let probe = match execute(fx, &baseline_case(&case.description, &[])) {
+        RunResult::Ok(o) => o,
+        other => {
+            println!("  unperturbed run failed: {other:?}");
+            return 1;
+        }
+    };
+    let mut deps = probe.loaded[1..].to_vec();
+    deps.sort();
+    let base = match execute(fx, &baseline_case(&case.description, &deps)) {
+        RunResult::Ok(o) => o,
+        other => {
+            println!("  unperturbed run failed: {other:?}");
+            return 1;
+        }
+    };
+    println!("  loaded {:?}, {} edges, {} containers, registry hash {:016x}", base.loaded, base.edges.len(), base.registry.as_object().map_or(0, |m| m.len()), base.registry_hash);
+    println!("step 2: perturbed run: {}", describe_case(fx, &case));
+    let mut bad = false;
+    let out = execute(fx, &case);
+    let reg = match &out {
+        RunResult::Ok(o) => {
+            println!("  loaded {:?}, {} edges, {} containers, registry hash {:016x}, order fingerprint {:016x}", o.loaded, o.edges.len(), o.registry.as_object().map_or(0, |m| m.len()), o.registry_hash, o.fingerprint);
+            Some(o)
+        }
+        RunResult::Err(e) => {
+            println!("  pipeline returned an error: {e}");
+            bad = true;
+            None
+        }
+        RunResult::Panic(p) => {
+            println!("  pipeline panicked at {}:{}: {}", p.file, p.line, p.message);
+            bad = true;
+            None
+        }
+    };
+    if let Some(o) = reg {
+        let reference_registry = match &case.declared_swap {
+            Some(sw) => {
+                println!("step 3: compare with the unperturbed registry in which the two variants have traded indices");
+                match expected_after_swap(fx, sw, &base) {
+                    Some((_, e)) => e,
+                    None => {
+                        println!("  expectation not derivable for this enum");
+                        base.registry.clone()
+                    }
+                }
+            }
+            None => {
+                println!("step 3: compare registries entry by entry");
+                base.registry.clone()
+            }
+        };
+        let (b, p) = (reference_registry.as_object().unwrap(), o.registry.as_object().unwrap());
+        let names: BTreeSet<&String> = b.keys().chain(p.keys()).collect();
+        for n in names {
+            if b.get(n) != p.get(n) {
+                bad = true;
+                println!("  {n}:\n    expected:  {}\n    observed:  {}", b.get(n).map_or("<absent>".into(), |v| v.to_string()), p.get(n).map_or("<absent>".into(), |v| v.to_string()));
+            }
+        }
+        if !bad {
+            println!("  registries are equal");
+        }
+        println!("step 4: closedness, variant indices, protocol types on the perturbed registry");
+        for (c, m) in closedness(&o.registry) {
+            bad = true;
+            println!("  {c} references {m}, which has no entry");
+        }
+        let (vf, ..) = variant_indices(fx, &o.edges, &o.registry);
+        for f in vf {
+            bad = true;
+            println!("  variant indices [{}]: {}", f.class, f.detail);
+        }
+        let traced = traced_protocol_registry();
+        for t in PROTOCOL_TYPES {
+            if let (Some(cli), Some(tr)) = (o.registry.get(t), traced.get(t)) {
+                if cli != tr {
+                    let defs = definitions_of(fx, &o.edges, t);
+                    let refd: Vec<Option<Value>> = defs.iter().map(|(c, i, _)| reference::container_format(c, i)).collect();
+                    println!("  protocol type {t}:\n    crux_cli:          {cli}\n    serde-reflection:  {tr}\n    serde rules on the bundled definition: {refd:?}");
+                    if !refd.iter().any(|r| r.as_ref() == Some(cli)) {
+                        bad = true;
+                    }
+                }
+            }
+        }
+    }
+    println!("verdict: {}", if bad { "violation reproduced" } else { "no violation on this tree" });
+    i32::from(bad)
+}
+
+fn main() {
+    let args: Vec<String> = std::env::args().collect();
+    let id = args.get(1).cloned().unwrap_or_default();
+    if id != "C20" {
+        eprintln!("usage: mc-cli C20 --tier quick|thorough [--replay <path>]");
+        std::process::exit(2);
+    }
+    let tier = Tier::from_args(&args);
+    // wall cap for the whole run, measured from process start (fixture loading included)
+    let deadline = Deadline::new(tier.pick(48.0, 780.0));
+    let fx = load_fixtures();
+    if let Some(path) = mc_kit::arg_value(&args, "--replay") {
+        std::process::exit(replay(&fx, &path));
+    }
+    let reporter = Reporter::new("C20", tier);
+    let traced = traced_protocol_registry();
+
+    // ---- baselines (two passes: discover the dependent crates, then pin their priority) -----
+    // development aid: restrict the run to some descriptions (the evidence then says
+    // exhaustive:false because not all bundled descriptions were covered)
+    let only = std::env::var("VERIF_C20_ONLY").ok();
+    let descriptions: Vec<String> = EXAMPLES
+        .iter()
+        .map(|s| s.to_string())
+        .filter(|d| only.as_ref().is_none_or(|o| o.split(',').any(|x| x == d)))
+        .collect();
+    let runs = AtomicU64::new(0);
+    let bases = par_map(&descriptions, |_, d| {
+        let probe = execute(&fx, &baseline_case(d, &[]));
+        runs.fetch_add(1, Ordering::Relaxed);
+        let RunResult::Ok(probe) = probe else { return (probe, None) };
+        let mut deps = probe.loaded[1..].to_vec();
+        deps.sort();
+        let b1 = execute(&fx, &baseline_case(d, &deps));
+        let b2 = execute(&fx, &baseline_case(d, &deps));
+        runs.fetch_add(2, Ordering::Relaxed);
+        (b1, Some(b2))
+    });
+    let mut base: BTreeMap<String, RunOut> = BTreeMap::new();
+    for (d, (b1, b2)) in descriptions.iter().zip(bases) {
+        match (b1, b2) {
+            (RunResult::Ok(a), Some(RunResult::Ok(b))) => {
+                if a.registry_text != b.registry_text || a.fingerprint != b.fingerprint || a.loaded != b.loaded {
+                    machinery_error(&format!(
+                        "harness not deterministic: two unperturbed runs of {d} with owned orders differ (fingerprints {:x}/{:x}, loaded {:?}/{:?}, registries equal: {})",
+                        a.fingerprint, b.fingerprint, a.loaded, b.loaded, a.registry_text == b.registry_text
+                    ));
+                }
+                base.insert(d.clone(), *a);
+            }
+            (RunResult::Err(e), _) | (_, Some(RunResult::Err(e))) => {
+                let key: String = e.chars().take(40).map(|c| if c.is_ascii_alphanumeric() { c.to_ascii_lowercase() } else { '-' }).collect();
+                reporter.violation(Violation {
+                    key: format!("baseline/run-error/{}", key.trim_matches('-')),
+                    what: format!("unperturbed codegen run of bundled description {d} fails: {e}"),
+                    replay: json!({"case": baseline_case(d, &[]), "why": "unperturbed run fails"}),
+                    size: 0,
+                });
+            }
+            (RunResult::Panic(p), _) | (_, Some(RunResult::Panic(p))) => {
+                reporter.violation(Violation {
+                    key: format!("baseline/{}", p.key()),
+                    what: format!("unperturbed codegen run of bundled description {d} panics at {}:{}: {}", p.file, p.line, p.message),
+                    replay: json!({"case": baseline_case(d, &[]), "why": "unperturbed run panics"}),
+                    size: 0,
+                });
+            }
+            _ => machinery_error("baseline bookkeeping"),
+        }
+    }
+
+    // ---- canaries: the oracles must be able to fail --------------------------------------------
+    canaries(&fx, &base);
+
+    // ---- plan -----------------------------------------------------------------------------------
+    // designated description of a dependent crate: fewest loaded crates, then name
+    let mut designated: BTreeMap<String, String> = BTreeMap::new();
+    for (d, b) in &base {
+        for c in &b.loaded[1..] {
+            let better = match designated.get(c) {
+                None => true,
+                Some(cur) => (b.loaded.len(), d) < (base[cur].loaded.len(), cur),
+            };
+            if better {
+                designated.insert(c.clone(), d.clone());
+            }
+        }
+    }
+    let mut plans: BTreeMap<String, Plan> = BTreeMap::new();
+    for (d, b) in &base {
+        let scope: BTreeSet<String> = b
+            .loaded
+            .iter()
+            .filter(|c| tier == Tier::Thorough || *c == d || designated.get(*c) == Some(d))
+            .cloned()
+            .collect();
+        plans.insert(d.clone(), plan(&fx, d, b, tier, &scope));
+    }
+    // Order of execution: first the members that move everything at once (descending order,
+    // reversal, offset, edge order ascending/descending, unowned runs), then the semantic swaps,
+    // the load orders and the per-item members, transpositions last; within a class the expensive
+    // descriptions first (better balance at the tail). A deadline therefore cuts the per-item
+    // members, never the global ones.
+    let class_rank = |c: &Case| -> u32 {
+        let per_item = matches!(c.facts, Order::First { .. } | Order::Last { .. })
+            || matches!(c.edges, Order::First { .. } | Order::Last { .. });
+        match c.family.as_str() {
+            "natural" => 0,
+            "fact-order" | "edge-order" if !per_item => 0,
+            "renumber" if !matches!(c.renumber, Renumber::Transpose { .. }) => 0,
+            "declared-swap" => 1,
+            "load-order" => 2,
+            "fact-order" => 3,
+            "edge-order" => 4,
+            _ => 5,
+        }
+    };
+    let mut all_cases: Vec<&Case> = plans.values().flat_map(|p| p.cases.iter()).collect();
+    all_cases.sort_by_key(|c| (class_rank(c), std::cmp::Reverse(base[&c.description].ms as u64)));
+
+    // ---- run ------------------------------------------------------------------------------------
+    let results: Vec<Option<RunResult>> = par_map(&all_cases, |_, case| {
+        if deadline.expired() {
+            return None;
+        }
+        Some(execute(&fx, case))
+    });
+
+    // ---- evaluate -------------------------------------------------------------------------------
+    let mut evaluations = 0u64;
+    let mut compared = 0u64;
+    let mut skipped: BTreeMap<(String, String), u64> = BTreeMap::new();
+    let mut executed: BTreeMap<(String, String), u64> = BTreeMap::new();
+    let mut states: BTreeSet<(String, u64)> = BTreeSet::new();
+    let mut outcomes: BTreeMap<String, BTreeSet<u64>> = BTreeMap::new();
+    let mut load_sequences: BTreeMap<String, BTreeSet<Vec<String>>> = BTreeMap::new();
+    let mut times: Vec<f64> = vec![];
+    let mut samples = Samples::new(48);
+    let mut rechecks = 0u64;
+    let mut swaps_not_checkable = 0u64;
+    let mut swap_outcomes: BTreeSet<(String, u64)> = BTreeSet::new();
+    for (d, b) in &base {
+        states.insert((d.clone(), b.fingerprint));
+        outcomes.entry(d.clone()).or_default().insert(b.registry_hash);
+        load_sequences.entry(d.clone()).or_default().insert(b.loaded.clone());
+    }
+    for (case, result) in all_cases.iter().zip(&results) {
+        let fam = (case.description.clone(), case.family.clone());
+        let Some(result) = result else {
+            *skipped.entry(fam).or_insert(0) += 1;
+            continue;
+        };
+        runs.fetch_add(1, Ordering::Relaxed);
+        *executed.entry(fam).or_insert(0) += 1;
+        let b = &base[&case.description];
+        let size = match &case.renumber {
+            Renumber::Identity => 1,
+            Renumber::Transpose { .. } => 2,
+            Renumber::Reverse { crates } | Renumber::Offset { crates } => 2 + crates.len(),
+        } + case.load_priority.len();
+        // violating cases are executed a second time: the verdict must be reproducible
+        let mut confirm = |what: &str| {
+            rechecks += 1;
+            runs.fetch_add(1, Ordering::Relaxed);
+            let again = execute(&fx, case);
+            let same = match (&again, result) {
+                (RunResult::Ok(a), RunResult::Ok(b)) => a.registry_text == b.registry_text,
+                (RunResult::Err(a), RunResult::Err(b)) => a == b,
+                (RunResult::Panic(a), RunResult::Panic(b)) => a.key() == b.key(),
+                _ => false,
+            };
+            if !same && case.facts != Order::Natural {
+                machinery_error(&format!(
+                    "harness not deterministic: re-execution of a violating case ({what}) gave a different observation: {}",
+                    describe_case(&fx, case)
+                ));
+            }
+        };
+        match result {
+            RunResult::Ok(o) => {
+                times.push(o.ms);
+                compared += 1;
+                evaluations += 1;
+                let input_mark = case
+                    .declared_swap
+                    .as_ref()
+                    .map_or(0, |s| fnv64(serde_json::to_string(s).unwrap().as_bytes()));
+                states.insert((case.description.clone(), o.fingerprint ^ input_mark));
+                if case.declared_swap.is_none() {
+                    outcomes.entry(case.description.clone()).or_default().insert(o.registry_hash);
+                } else {
+                    swap_outcomes.insert((case.description.clone(), o.registry_hash));
+                }
+                load_sequences.entry(case.description.clone()).or_default().insert(o.loaded.clone());
+                samples.offer(|| json!({"case": case, "loaded": o.loaded, "order_fingerprint": format!("{:016x}", o.fingerprint), "registry_hash": format!("{:016x}", o.registry_hash), "equals_unperturbed": o.registry_text == b.registry_text}));
+                if let Some(sw) = &case.declared_swap {
+                    match expected_after_swap(&fx, sw, b) {
+                        None => swaps_not_checkable += 1,
+                        Some((name, expected)) => {
+                            if expected == b.registry {
+                                // both variants have the same name and format: nothing to see
+                                swaps_not_checkable += 1;
+                            } else if o.registry != expected {
+                                confirm("registry does not follow the declaration");
+                                let class = if o.registry == b.registry {
+                                    "ignored".to_string()
+                                } else {
+                                    diff_class(&expected, &o.registry).0
+                                };
+                                reporter.violation(Violation {
+                                    key: format!("declared-swap/{class}"),
+                                    what: format!(
+                                        "variant indices do not follow declaration order: after two declared variants of {name} trade places the registry {}: {}",
+                                        if class == "ignored" { "is unchanged".to_string() } else { format!("is neither the old nor the expected one ({class})") },
+                                        describe_case(&fx, case)
+                                    ),
+                                    replay: json!({"case": case, "enum": name, "expected_entry": expected.get(&name), "observed_entry": o.registry.get(&name), "unperturbed_entry": b.registry.get(&name)}),
+                                    size,
+                                });
+                            }
+                        }
+                    }
+                } else if o.registry_text != b.registry_text {
+                    confirm("registry differs");
+                    let (class, entry) = diff_class(&b.registry, &o.registry);
+                    reporter.violation(Violation {
+                        key: format!("{}/{}", case.family, class),
+                        what: format!(
+                            "registry depends on the perturbation: entry {entry} differs ({class}) from the unperturbed run under: {}",
+                            describe_case(&fx, case)
+                        ),
+                        replay: json!({"case": case, "first_differing_entry": entry, "unperturbed": b.registry.get(&entry), "perturbed": o.registry.get(&entry)}),
+                        size,
+                    });
+                }
+            }
+            RunResult::Err(e) => {
+                evaluations += 1;
+                confirm("pipeline error");
+                let key: String = e.chars().take(40).map(|c| if c.is_ascii_alphanumeric() { c.to_ascii_lowercase() } else { '-' }).collect();
+                reporter.violation(Violation {
+                    key: format!("{}/run-error/{}", case.family, key.trim_matches('-')),
+                    what: format!("codegen fails under a perturbation although the unperturbed run succeeds: {e}; {}", describe_case(&fx, case)),
+                    replay: json!({"case": case, "error": e}),
+                    size,
+                });
+            }
+            RunResult::Panic(p) => {
+                evaluations += 1;
+                confirm("panic");
+                reporter.violation(Violation {
+                    key: format!("{}/{}", case.family, p.key()),
+                    what: format!("codegen panics at {}:{} ({}) under: {}", p.file, p.line, p.message, describe_case(&fx, case)),
+                    replay: json!({"case": case, "panic": {"message": p.message, "file": p.file, "line": p.line}}),
+                    size,
+                });
+            }
+        }
+    }
+
+    // ---- closedness, variant indices, protocol types (on every distinct registry of every
+    //      description; if invariance holds that is the unperturbed one) --------------------------
+    let mut closed_checks = 0u64;
+    let (mut enums_checked, mut variants_checked, mut enums_not_derivable) = (0u64, 0u64, 0u64);
+    let mut protocol_compared = 0u64;
+    let mut protocol_agree = 0u64;
+    let mut protocol_types_seen: BTreeSet<String> = BTreeSet::new();
+    let mut stale: Vec<Value> = vec![];
+    let mut reference_checked = 0u64;
+    let mut reference_not_derivable: BTreeSet<String> = BTreeSet::new();
+    for (d, b) in &base {
+        let bc = baseline_case(d, &plans[d].deps);
+        closed_checks += 1;
+        evaluations += 1;
+        for (container, missing) in closedness(&b.registry) {
+            reporter.violation(Violation {
+                key: format!("not-closed/{missing}"),
+                what: format!("registry of {d} is not closed: {container} references {missing}, which has no entry"),
+                replay: json!({"case": bc, "container": container, "missing": missing}),
+                size: 0,
+            });
+        }
+        let (vf, e, v, nd) = variant_indices(&fx, &b.edges, &b.registry);
+        enums_checked += e;
+        variants_checked += v;
+        enums_not_derivable += nd;
+        evaluations += e;
+        for f in vf {
+            reporter.violation(Violation {
+                key: format!("variant-index/{}/{}", f.class, f.enum_name),
+                what: format!("{d}: {}", f.detail),
+                replay: json!({"case": bc, "enum": f.enum_name, "class": f.class, "detail": f.detail}),
+                size: 0,
+            });
+        }
+        for t in PROTOCOL_TYPES {
+            let Some(cli) = b.registry.get(t) else { continue };
+            let Some(tr) = traced.get(t) else {
+                machinery_error(&format!("protocol type {t} missing from the traced registry"));
+            };
+            protocol_compared += 1;
+            evaluations += 1;
+            protocol_types_seen.insert(t.to_string());
+            // what serde's rules give for the bundled definition (None: synthetic entry such as
+            // Request, or outside the modelled vocabulary)
+            let defs = definitions_of(&fx, &b.edges, t);
+            let derived: Vec<Value> = defs.iter().filter_map(|(c, i, _)| reference::container_format(c, i)).collect();
+            if cli == tr {
+                protocol_agree += 1;
+                if !defs.is_empty() {
+                    if derived.is_empty() {
+                        reference_not_derivable.insert(t.to_string());
+                    } else {
+                        reference_checked += 1;
+                        if !derived.iter().any(|r| r == tr) {
+                            machinery_error(&format!(
+                                "reference derivation is wrong for {t} in {d}: crux_cli and serde-reflection agree on {tr} but the harness derives {derived:?} from the bundled definition"
+                            ));
+                        }
+                    }
+                }
+                continue;
+            }
+            let sides = json!({"description": d, "type": t, "crux_cli": cli, "serde_reflection_current_sources": tr, "serde_rules_on_bundled_definition": derived, "defined_in": defs.iter().map(|(_, _, n)| format!("{}#{}", n.0, n.1)).collect::<Vec<_>>()});
+            if derived.iter().any(|r| r == cli) {
+                // the CLI derives from the snapshot what serde's rules give for the snapshot:
+                // the snapshot is older than the sources, not a CLI defect
+                println!(
+                    "note: {d}: bundled snapshot of protocol type {t} is older than the current sources (crux_cli derives what serde's rules give for the snapshot; not a finding, both sides are in the evidence)"
+                );
+                stale.push(sides);
+            } else if derived.iter().any(|r| r == tr) {
+                reporter.violation(Violation {
+                    key: format!("protocol/{t}/cli-differs-from-serde"),
+                    what: format!("{d}: for the same definition of {t} crux_cli derives {cli} but serde (traced, and by serde's rules on the bundled definition) gives {tr}"),
+                    replay: json!({"case": bc, "sides": sides}),
+                    size: 0,
+                });
+            } else {
+                reporter.violation(Violation {
+                    key: format!("protocol/{t}/unattributed-divergence"),
+                    what: format!("{d}: crux_cli derives {cli} for {t}, serde-reflection on the current sources gives {tr}, serde's rules on the bundled definition give {derived:?}: cannot be attributed to a stale snapshot"),
+                    replay: json!({"case": bc, "sides": sides}),
+                    size: 0,
+                });
+            }
+        }
+    }
+
+    // ---- evidence -------------------------------------------------------------------------------
+    let total_runs = runs.load(Ordering::Relaxed);
+    let baseline_fps: BTreeSet<(String, u64)> = base.iter().map(|(d, b)| (d.clone(), b.fingerprint)).collect();
+    let distinct_nontrivial = states.difference(&baseline_fps).count();
+    let total_skipped: u64 = skipped.values().sum();
+    let exhaustive = total_skipped == 0 && base.len() == EXAMPLES.len();
+    times.sort_by(|a, b| a.partial_cmp(b).unwrap());
+    let mut per_description = serde_json::Map::new();
+    for (d, p) in &plans {
+        let fam = |f: &str| json!({
+            "planned": p.sizes.get(f).copied().unwrap_or(0),
+            "executed": executed.get(&(d.clone(), f.to_string())).copied().unwrap_or(0),
+        });
+        let mut t: Vec<f64> = all_cases
+            .iter()
+            .zip(&results)
+            .filter_map(|(c, r)| match r {
+                Some(RunResult::Ok(o)) if c.description == *d => Some(o.ms),
+                _ => None,
+            })
+            .collect();
+        t.sort_by(|a, b| a.partial_cmp(b).unwrap());
+        let median_ms = t.get(t.len() / 2).copied();
+        per_description.insert(d.clone(), json!({
+            "dependent_crates": p.deps,
+            "per_item_members_for_items_of": p.scope,
+            "k_relevant_items_per_crate": p.k_per_crate,
+            "k_relevant_items": p.k_per_crate.values().sum::<usize>(),
+            "items_in_edge_relation": p.edge_nodes,
+            "edges": base[d].edges.len(),
+            "containers": base[d].registry.as_object().map_or(0, |m| m.len()),
+            "fact_order": fam("fact-order"),
+            "edge_order": fam("edge-order"),
+            "renumber": fam("renumber"),
+            "load_order": fam("load-order"),
+            "declared_swap": fam("declared-swap"),
+            "natural_unowned_runs": fam("natural"),
+            "distinct_load_sequences_observed": load_sequences.get(d).map_or(0, |s| s.len()),
+            "distinct_registries_observed": outcomes.get(d).map_or(0, |s| s.len()),
+            "run_ms_median": median_ms,
+        }));
+    }
+    if distinct_nontrivial < 2 || base.is_empty() {
+        eprintln!("MACHINERY-ERROR: vacuous run: {distinct_nontrivial} distinct non-trivial perturbed executions");
+        std::process::exit(2);
+    }
+    let renumber_bound = tier.pick(
+        "reversal and offset (all loaded crates at once and each crate alone) + transpositions of relevant ids that are neighbours in id order among the relevant items of one kind (variant/field/struct/enum/impl/associated type), for the crates in the description's per-item scope",
+        "reversal and offset (all loaded crates at once and each crate alone) + every transposition of two relevant ids of the same crate, for every loaded crate",
+    );
+    let coverage = json!({
+        "states": states.len(),
+        "transitions": total_runs,
+        "traces_validated_against_impl": compared,
+        "evaluations": evaluations,
+        "distinct_nontrivial": distinct_nontrivial,
+        "rule": "a state is a distinct (description, order fingerprint) pair, the fingerprint being an FNV hash computed inside crux_cli over the exact sequence of (relation, crate, id) facts and edges presented to the two datalog programs in crate processing order; it is non-trivial if it differs from the fingerprint of the unperturbed run of that description",
+        "exhaustive": exhaustive,
+        "exhaustive_detail": if exhaustive {
+            format!("all families below were enumerated completely for all {} bundled descriptions at tier {}; renumbering family at this tier = {}", base.len(), tier.name(), renumber_bound)
+        } else {
+            format!("deadline cut the enumeration: {total_skipped} planned cases not executed: {:?}", skipped.iter().map(|((d, f), n)| format!("{d}/{f}: {n}")).collect::<Vec<_>>())
+        },
+        "families": {
+            "fact-order": format!("item, summary and external-crate fact vectors of every processed crate sorted by the harness: descending id; for each relevant item {}: that item first / that item last (others ascending); the unperturbed run is ascending id", tier.pick("of the crates in the description's per-item scope", "of every loaded crate")),
+            "edge-order": format!("edge vector handed to the formatter sorted by the harness: ascending, descending, and for each {}: its edges first / last", tier.pick("container (edge source) of the crates in the description's per-item scope", "item occurring in an edge")),
+            "per_item_scope": tier.pick("quick: root crate + the dependent crates for which this description is the designated one (fewest loaded crates among the descriptions loading it); every relevant item of every description is thus moved under at least one description, not under every description that loads it", "thorough: every loaded crate under every description"),
+            "renumber": renumber_bound,
+            "load-order": format!("every permutation of the dependent crates as load priority{}", tier.pick("", ", each with ascending and descending fact order")),
+            "declared-swap": "semantic counterpart of the order families: for every enum that reaches the formatter (per-item scope as above) and every pair of neighbouring non-skipped variants, the two trade places in the declared variants list; the registry must be the unperturbed one with exactly those two indices exchanged",
+            "natural": "unowned runs (real hash-map order, real work-list order): a sample, not part of the exhaustiveness claim",
+            "relevant_items": "nodes of the edge relation of the unperturbed run + impls of App/Effect/Capability/Operation, their associated types, their self types, and the fields of App self types",
+        },
+        "per_description": per_description,
+        "descriptions": base.keys().collect::<Vec<_>>(),
+        "distinct_outcomes": outcomes.values().map(|s| s.len()).sum::<usize>(),
+        "distinct_outcomes_expected_if_property_holds": base.len(),
+        "distinct_outcomes_note": "registries of the order/renumbering/load families only; the declared-swap family changes the meaning of the description and is expected to give a different registry per member",
+        "declared_swap_distinct_registries": swap_outcomes.len(),
+        "declared_swap_members_not_checkable": swaps_not_checkable,
+        "ids_rewritten_per_description": fx.id_occurrences,
+        "max_id_per_description": fx.max_id,
+        "closedness_checks": closed_checks,
+        "enums_checked_for_variant_indices": enums_checked,
+        "variants_checked": variants_checked,
+        "enums_not_derivable": enums_not_derivable,
+        "protocol_comparisons": protocol_compared,
+        "protocol_comparisons_agreeing": protocol_agree,
+        "protocol_types_compared": protocol_types_seen,
+        "protocol_types_never_in_any_registry": PROTOCOL_TYPES.iter().filter(|t| !protocol_types_seen.contains(**t)).collect::<Vec<_>>(),
+        "protocol_stale_snapshots": stale,
+        "reference_derivations_cross_checked": reference_checked,
+        "reference_not_derivable": reference_not_derivable,
+        "violating_cases_re_executed": rechecks,
+        "run_ms": if times.is_empty() { json!(null) } else { json!({"min": times[0], "median": times[times.len() / 2], "max": times[times.len() - 1]}) },
+        "samples": samples.into_value(),
+    });
+    let code = reporter.finish(
+        "model_checking",
+        coverage,
+        &[
+            "the three perturbation families (plus the edge-order family) are finite and enumerated completely, but they are NOT all iteration orders, all id bijections or all load orders: a dependence that needs three or more items to move at once, or a specific non-listed id assignment, is outside the enumerated space",
+            "order is owned at the three fact vectors, the formatter's edge vector and the crate work list; iteration inside the datalog engine (ascent, FxHash) is deterministic given those and is not permuted separately",
+            "only the 7 bundled example descriptions and the 5 bundled crux_* descriptions are inputs; they are snapshots (rustdoc format 42) and cannot be regenerated here",
+            "protocol-type agreement compares crux_cli's output on the bundled snapshots with serde-reflection traced from the current sources; a difference that serde's own rules reproduce on the snapshot is attributed to snapshot age and reported, not flagged",
+            "renumbering rewrites exactly the values serde presents as newtype struct `Id` (also as map keys); crate ids are not item ids and are left alone",
+        ],
+    );
+    std::process::exit(code);
+}
+
+/// The registry that must result when two neighbouring live variants of an enum trade places in
+/// the declaration: the unperturbed registry with the two corresponding indices exchanged.
+fn expected_after_swap(fx: &Fixtures, sw: &DeclaredSwap, b: &RunOut) -> Option<(String, Value)> {
+    let c = fx.crates.get(&sw.krate)?;
+    let item = c.index.get(&Id(sw.enum_id))?;
+    let ItemEnum::Enum(e) = &item.inner else { return None };
+    let name = reference::container_name(item)?;
+    let live: Vec<usize> = e
+        .variants
+        .iter()
+        .enumerate()
+        .filter(|(_, v)| c.index.get(v).is_some_and(|i| !reference::serde_attrs(i).skip))
+        .map(|(p, _)| p)
+        .collect();
+    let i = live.iter().position(|p| *p == sw.a)?;
+    let j = live.iter().position(|p| *p == sw.b)?;
+    let mut expected = b.registry.clone();
+    let m = expected.get_mut(&name)?.get_mut("ENUM")?.as_object_mut()?;
+    let (vi, vj) = (m.get(&i.to_string())?.clone(), m.get(&j.to_string())?.clone());
+    m.insert(i.to_string(), vj);
+    m.insert(j.to_string(), vi);
+    Some((name, expected))
+}
+
+/// Built-in deliberately wrong oracle inputs: each must be rejected, otherwise the harness could
+/// not fail and is not to be trusted. They exercise the oracles only (tampered registries), so a
+/// defect in crux cannot make them fail.
+fn canaries(fx: &Fixtures, base: &BTreeMap<String, RunOut>) {
+    let Some((_, b)) = base.iter().find(|(d, _)| d.as_str() == "simple_counter").or_else(|| base.iter().next()) else {
+        return;
+    };
+    // 1. a registry in which two variants of an enum have traded places must be classified as
+    //    different by the comparison and must trip the declaration-order oracle
+    let mut swapped = b.registry.clone();
+    let mut done = false;
+    for (_, entry) in swapped.as_object_mut().unwrap().iter_mut() {
+        if let Some(m) = entry.get_mut("ENUM").and_then(Value::as_object_mut) {
+            if m.len() >= 2 && m.get("0") != m.get("1") {
+                let (v0, v1) = (m["0"].clone(), m["1"].clone());
+                m.insert("0".into(), v1);
+                m.insert("1".into(), v0);
+                done = true;
+                break;
+            }
+        }
+    }
+    if !done {
+        machinery_error("canary: no enum with two distinct variants in the canary registry");
+    }
+    if serde_json::to_string(&swapped).unwrap() == b.registry_text || diff_class(&b.registry, &swapped).0 != "enum-variant-index" {
+        machinery_error("canary: the registry comparison does not see two variants trading places");
+    }
+    let (vf, ..) = variant_indices(fx, &b.edges, &swapped);
+    if !vf.iter().any(|f| f.class == "declaration-order") {
+        machinery_error("canary: the declaration-order oracle accepted a registry with two variants exchanged");
+    }
+    // 2. a registry with an entry removed must be reported as not closed
+    let mut open = b.registry.clone();
+    let mut refs = vec![];
+    reference::referenced_type_names(&open, &mut refs);
+    let Some(victim) = refs.first().cloned() else {
+        machinery_error("canary: unperturbed registry references no type");
+    };
+    open.as_object_mut().unwrap().remove(&victim);
+    if !closedness(&open).iter().any(|(_, m)| *m == victim) {
+        machinery_error("canary: closedness oracle accepted a registry with a dangling reference");
+    }
+    // 3. keys 0,2 instead of 0,1 must be reported as not contiguous
+    let mut gap = b.registry.clone();
+    let mut done = false;
+    for (_, entry) in gap.as_object_mut().unwrap().iter_mut() {
+        if let Some(m) = entry.get_mut("ENUM").and_then(Value::as_object_mut) {
+            if m.len() >= 2 {
+                let last = (m.len() - 1).to_string();
+                let v = m.remove(&last).unwrap();
+                m.insert((m.len() + 1).to_string(), v);
+                done = true;
+                break;
+            }
+        }
+    }
+    if !done {
+        machinery_error("canary: no enum with two variants in the canary registry");
+    }
+    let (vf, ..) = variant_indices(fx, &b.edges, &gap);
+    if !vf.iter().any(|f| f.class == "not-contiguous") {
+        machinery_error("canary: contiguity oracle accepted variant keys with a gap");
+    }
+}
